@@ -148,13 +148,14 @@ type checkRun struct {
 	trusted  map[string]bool
 	sources  []string
 	bgOf     map[*Obligation]string
+	bgLite   map[*Obligation]string
 	wall     float64
 	solverS  float64
 	vacuity  []string
 }
 
 func runCone(w *World, cs *Contracts, cone *Cone, tier string, seed int, outDir string) *checkRun {
-	run := &checkRun{cone: cone, trusted: map[string]bool{}, sources: cs.Sources, bgOf: map[*Obligation]string{}}
+	run := &checkRun{cone: cone, trusted: map[string]bool{}, sources: cs.Sources, bgOf: map[*Obligation]string{}, bgLite: map[*Obligation]string{}}
 	t0 := time.Now()
 	os.MkdirAll(outDir, 0o755)
 	type job struct {
@@ -211,6 +212,13 @@ func runCone(w *World, cs *Contracts, cone *Cone, tier string, seed int, outDir 
 				continue
 			}
 			run.bgOf[o] = e.BackgroundFor(o)
+			if e.needB {
+				// the same query without the quantified byte-string theory: used only to look for a model to replay when
+				// the real query fails without one (a model of the weaker query counts only if it replays on the code)
+				e.liteB = true
+				run.bgLite[o] = e.BackgroundFor(o)
+				e.liteB = false
+			}
 		}
 		for t := range e.trustedUsed {
 			run.trusted[t] = true
@@ -430,6 +438,14 @@ func cmdCheck(args []string) {
 		}
 		// a claimed obligation failed
 		violations++
+		if r.Model == "" && run.bgLite[r.Obl] != "" {
+			lo := *r.Obl
+			lo.Name += "#lite"
+			if lr := solveOne(outDir, run.bgLite[r.Obl], &lo, "quick", 5, seed); lr.Status == "sat" {
+				r.Model = lr.Model
+				r.Output += "\n(model from the query without the byte-string theory; counts only if it replays)\n"
+			}
+		}
 		rp := writeReplay(w, outDir, cone, r, *repo)
 		suffix := ""
 		if !rp.Confirmed {
